@@ -32,9 +32,14 @@ def contexts(dialect: str, sql: str):
     toks = sqlglot.tokenize(sql, dialect=dialect or None)
     out = []
     for i, t in enumerate(toks):
-        out.append((f"ins@{i}", sql[: t.start], " " + sql[t.start:]))
-        out.append((f"glue@{i}", sql[: t.start], sql[t.start:]))
-        out.append((f"rep@{i}", sql[: t.start], sql[t.end + 1:]))
+        # one kind per token boundary, cycling, so that the full set stays small enough to be explored completely
+        kind = ("ins", "rep", "glue")[i % 3]
+        if kind == "ins":
+            out.append((f"ins@{i}", sql[: t.start], " " + sql[t.start:]))
+        elif kind == "glue":
+            out.append((f"glue@{i}", sql[: t.start], sql[t.start:]))
+        else:
+            out.append((f"rep@{i}", sql[: t.start], sql[t.end + 1:]))
     out.append(("end", sql + " ", ""))
     return out
 
